@@ -263,6 +263,195 @@ theorem rtu_client_none_of_scan (buf : Bytes) (s : UInt8) (p : ResponsePdu)
   obtain ⟨f, loc, hd, _, _⟩ := C08.rtu_client_decode_of_scan buf s p h
   exact hscan f loc hd
 
+/-! ### the corrupted frame embedded at an arbitrary offset
+
+The scan loop evaluates its attempt at offset `d` on `buf.drop d` (`scanFrom` in Model/Scan.lean:
+`att (buf.drop d)`), and `mkAttempt` hands that same slice to the length predictor and to
+`rtu::extract_frame`.  For `buf = pre ++ (F ⊕ E) ++ rest` and `d = pre.length` that slice is
+`(F ⊕ E) ++ rest`, so every offset-0 statement above transfers to offset `pre.length` — for ANY
+bytes `pre` in front (any length, any contents) and any bytes `rest` behind. -/
+
+/-- the slice the scanner examines at offset `pre.length` -/
+theorem drop_embedded (pre g rest : Bytes) : (pre ++ g ++ rest).drop pre.length = g ++ rest := by
+  rw [List.append_assoc, List.drop_left]
+
+/-- the extractor, on the slice the scanner examines at offset `pre.length`, asked for the original
+length: `Error::Crc` -/
+theorem rtu_extract_corrupt_embedded (pre F E rest : Bytes) (fr : Rtu.Frame)
+    (hF : Rtu.extractFrame F (F.length - 3) = .ok (some fr)) (hlen : E.length = F.length)
+    (hE : SingleBit E ∨ Burst16 E ∨ (DoubleBit E ∧ F.length ≤ 256)) :
+    ∃ e a, Rtu.extractFrame ((pre ++ xorBytes F E ++ rest).drop pre.length) (F.length - 3) = .err (.crc e a) := by
+  rw [drop_embedded]; exact rtu_extract_corrupt F E rest fr hF hlen hE
+
+/-- the scanner's attempt at offset `pre.length` never yields a frame of the original size -/
+theorem rtu_req_corrupt_attempt_embedded (pre F E rest : Bytes) (fr f : Rtu.Frame)
+    (hF : Rtu.extractFrame F (F.length - 3) = .ok (some fr)) (hlen : E.length = F.length)
+    (hE : SingleBit E ∨ Burst16 E ∨ (DoubleBit E ∧ F.length ≤ 256)) :
+    Rtu.attemptReq ((pre ++ xorBytes F E ++ rest).drop pre.length) ≠ .ok (some (f, F.length)) := by
+  rw [drop_embedded]; exact rtu_req_corrupt_attempt F E rest fr f hF hlen hE
+
+theorem rtu_rsp_corrupt_attempt_embedded (pre F E rest : Bytes) (fr f : Rtu.Frame)
+    (hF : Rtu.extractFrame F (F.length - 3) = .ok (some fr)) (hlen : E.length = F.length)
+    (hE : SingleBit E ∨ Burst16 E ∨ (DoubleBit E ∧ F.length ≤ 256)) :
+    Rtu.attemptRsp ((pre ++ xorBytes F E ++ rest).drop pre.length) ≠ .ok (some (f, F.length)) := by
+  rw [drop_embedded]; exact rtu_rsp_corrupt_attempt F E rest fr f hF hlen hE
+
+/-- when the corruption leaves the length prediction at that offset unchanged, the attempt at offset
+`pre.length` is rejected with `Error::Crc` (the C14 sense of "rejected": `isErr`) -/
+theorem rtu_req_corrupt_rejected_embedded (pre F E rest : Bytes) (fr : Rtu.Frame)
+    (hF : Rtu.extractFrame F (F.length - 3) = .ok (some fr)) (hlen : E.length = F.length)
+    (hE : SingleBit E ∨ Burst16 E ∨ (DoubleBit E ∧ F.length ≤ 256))
+    (hp : Rtu.requestPduLen ((pre ++ xorBytes F E ++ rest).drop pre.length) = .ok (some (F.length - 3))) :
+    (∃ e a, Rtu.attemptReq ((pre ++ xorBytes F E ++ rest).drop pre.length) = .err (.crc e a)) ∧
+    (Rtu.attemptReq ((pre ++ xorBytes F E ++ rest).drop pre.length)).isErr = true := by
+  rw [drop_embedded] at hp ⊢
+  obtain ⟨e, a, h⟩ := rtu_req_corrupt_rejected_at_zero F E rest fr hF hlen hE hp
+  exact ⟨⟨e, a, h⟩, by rw [h]; rfl⟩
+
+theorem rtu_rsp_corrupt_rejected_embedded (pre F E rest : Bytes) (fr : Rtu.Frame)
+    (hF : Rtu.extractFrame F (F.length - 3) = .ok (some fr)) (hlen : E.length = F.length)
+    (hE : SingleBit E ∨ Burst16 E ∨ (DoubleBit E ∧ F.length ≤ 256))
+    (hp : Rtu.responsePduLen ((pre ++ xorBytes F E ++ rest).drop pre.length) = .ok (some (F.length - 3))) :
+    (∃ e a, Rtu.attemptRsp ((pre ++ xorBytes F E ++ rest).drop pre.length) = .err (.crc e a)) ∧
+    (Rtu.attemptRsp ((pre ++ xorBytes F E ++ rest).drop pre.length)).isErr = true := by
+  rw [drop_embedded] at hp ⊢
+  obtain ⟨e, a, h⟩ := rtu_rsp_corrupt_rejected_at_zero F E rest fr hF hlen hE hp
+  exact ⟨⟨e, a, h⟩, by rw [h]; rfl⟩
+
+/-- generic step: no frame is reported at location `(pre.length, F.length)` — whatever `pre` is
+(no bound on its length, no hypothesis on its contents) -/
+theorem scan_corrupt_not_returned_embedded (att : Attempt Rtu.Frame)
+    (hatt : ∀ raw f sz, att raw = .ok (some (f, sz)) →
+      sz = f.pdu.length + 3 ∧ Rtu.extractFrame raw f.pdu.length = .ok (some f))
+    (pre F E rest : Bytes) (fr f : Rtu.Frame)
+    (hF : Rtu.extractFrame F (F.length - 3) = .ok (some fr)) (hlen : E.length = F.length)
+    (hE : Detectable F E) :
+    scan att (pre ++ xorBytes F E ++ rest) ≠ .ok (some (f, ⟨pre.length, F.length⟩)) := by
+  intro h
+  obtain ⟨_, _, h3, _⟩ := scan_no_later att _ f _ h
+  obtain ⟨hsz, hex⟩ := hatt _ _ _ h3
+  simp only [drop_embedded] at hex hsz
+  have hn : f.pdu.length = F.length - 3 := by omega
+  rw [hn] at hex
+  exact rtu_extract_corrupt_no_frame F E rest fr f hF hlen hE hex
+
+/-- **C08, last sentence, request direction, any position**: `rtu::decode(Request, ·)` never reports
+the corrupted frame at its position `pre.length` with its original size -/
+theorem rtu_req_corrupt_not_returned_embedded (pre F E rest : Bytes) (fr f : Rtu.Frame)
+    (hF : Rtu.extractFrame F (F.length - 3) = .ok (some fr)) (hlen : E.length = F.length)
+    (hE : SingleBit E ∨ Burst16 E ∨ (DoubleBit E ∧ F.length ≤ 256)) :
+    Rtu.decodeReq (pre ++ xorBytes F E ++ rest) ≠ .ok (some (f, ⟨pre.length, F.length⟩)) :=
+  scan_corrupt_not_returned_embedded Rtu.attemptReq C08.rtu_attemptReq_sound pre F E rest fr f hF hlen hE
+
+/-- **… response direction, any position** -/
+theorem rtu_rsp_corrupt_not_returned_embedded (pre F E rest : Bytes) (fr f : Rtu.Frame)
+    (hF : Rtu.extractFrame F (F.length - 3) = .ok (some fr)) (hlen : E.length = F.length)
+    (hE : SingleBit E ∨ Burst16 E ∨ (DoubleBit E ∧ F.length ≤ 256)) :
+    Rtu.decodeRsp (pre ++ xorBytes F E ++ rest) ≠ .ok (some (f, ⟨pre.length, F.length⟩)) :=
+  scan_corrupt_not_returned_embedded Rtu.attemptRsp C08.rtu_attemptRsp_sound pre F E rest fr f hF hlen hE
+
+/-- generic: every offset of `pre` rejected (C14's predicate, in context) ⇒ whatever frame the scan
+reports starts at or after `pre.length` and is not `(pre.length, F.length)`; if moreover the attempt
+at `pre.length` is rejected (`rtu_*_corrupt_rejected_embedded`), it starts strictly LATER -/
+theorem scan_corrupt_later_embedded (att : Attempt Rtu.Frame)
+    (hatt : ∀ raw f sz, att raw = .ok (some (f, sz)) →
+      sz = f.pdu.length + 3 ∧ Rtu.extractFrame raw f.pdu.length = .ok (some f))
+    (pre F E rest : Bytes) (fr f : Rtu.Frame) (loc : Loc)
+    (hF : Rtu.extractFrame F (F.length - 3) = .ok (some fr)) (hlen : E.length = F.length)
+    (hE : Detectable F E)
+    (hpre : ∀ i, i < pre.length → (att ((pre ++ xorBytes F E ++ rest).drop i)).isErr = true)
+    (h : scan att (pre ++ xorBytes F E ++ rest) = .ok (some (f, loc))) :
+    pre.length ≤ loc.start ∧ (loc.start = pre.length → loc.size ≠ F.length) ∧
+    ((att ((pre ++ xorBytes F E ++ rest).drop pre.length)).isErr = true → pre.length < loc.start) := by
+  obtain ⟨_, _, h3, _⟩ := scan_no_later att _ f _ h
+  have hok : ¬ (att ((pre ++ xorBytes F E ++ rest).drop loc.start)).isErr = true := by
+    rw [h3]; exact Res.not_isErr_ok _
+  have hge : pre.length ≤ loc.start := by
+    rcases Nat.lt_or_ge loc.start pre.length with hlt | hge
+    · exact absurd (hpre _ hlt) hok
+    · exact hge
+  refine ⟨hge, ?_, ?_⟩
+  · intro hs hz
+    obtain ⟨s, z⟩ := loc
+    simp only at hs hz
+    subst hs hz
+    exact scan_corrupt_not_returned_embedded att hatt pre F E rest fr f hF hlen hE h
+  · intro herr
+    rcases Nat.lt_or_ge pre.length loc.start with hlt | hle
+    · exact hlt
+    · have : loc.start = pre.length := by omega
+      rw [this] at hok
+      exact absurd herr hok
+
+/-- **`rtu::server::decode_request`, corrupted frame behind up to any number of rejected bytes**:
+if every offset of `pre` is rejected in context, a value the ADU decoder returns comes from a scanned
+frame that starts at or after `pre.length` and is not the corrupted frame `(pre.length, F.length)`;
+when the corruption leaves the length prediction at `pre.length` unchanged, from a frame that starts
+strictly LATER.  (The other outcomes — `Err`, `Ok(None)` — return no frame at all.  `pre.length ≤ 255`
+is not needed: beyond 255 rejected offsets the scan gives up before reaching the frame.) -/
+theorem rtu_server_corrupt_not_decoded_embedded (pre F E rest : Bytes) (fr : Rtu.Frame) (s : UInt8) (r : Request)
+    (hF : Rtu.extractFrame F (F.length - 3) = .ok (some fr)) (hlen : E.length = F.length)
+    (hE : SingleBit E ∨ Burst16 E ∨ (DoubleBit E ∧ F.length ≤ 256))
+    (hpre : ∀ i, i < pre.length → (Rtu.attemptReq ((pre ++ xorBytes F E ++ rest).drop i)).isErr = true)
+    (h : Rtu.serverDecodeRequest (pre ++ xorBytes F E ++ rest) = .ok (some (s, r))) :
+    ∃ f loc, Rtu.decodeReq (pre ++ xorBytes F E ++ rest) = .ok (some (f, loc)) ∧ f.slave = s ∧
+      Request.decode f.pdu = .ok r ∧ loc ≠ ⟨pre.length, F.length⟩ ∧ pre.length ≤ loc.start ∧
+      (Rtu.requestPduLen ((pre ++ xorBytes F E ++ rest).drop pre.length) = .ok (some (F.length - 3)) →
+        pre.length < loc.start) := by
+  obtain ⟨f, loc, hd, hs, hr⟩ := C08.rtu_server_decode_of_scan _ s r h
+  obtain ⟨h1, h2, h3⟩ := scan_corrupt_later_embedded Rtu.attemptReq C08.rtu_attemptReq_sound pre F E rest fr f loc
+    hF hlen hE hpre hd
+  refine ⟨f, loc, hd, hs, hr, ?_, h1, fun hp => h3 (rtu_req_corrupt_rejected_embedded pre F E rest fr hF hlen hE hp).2⟩
+  intro hl
+  rw [hl] at hd
+  exact rtu_req_corrupt_not_returned_embedded pre F E rest fr f hF hlen hE hd
+
+/-- **`rtu::client::decode_response`**, likewise -/
+theorem rtu_client_corrupt_not_decoded_embedded (pre F E rest : Bytes) (fr : Rtu.Frame) (s : UInt8) (p : ResponsePdu)
+    (hF : Rtu.extractFrame F (F.length - 3) = .ok (some fr)) (hlen : E.length = F.length)
+    (hE : SingleBit E ∨ Burst16 E ∨ (DoubleBit E ∧ F.length ≤ 256))
+    (hpre : ∀ i, i < pre.length → (Rtu.attemptRsp ((pre ++ xorBytes F E ++ rest).drop i)).isErr = true)
+    (h : Rtu.clientDecodeResponse (pre ++ xorBytes F E ++ rest) = .ok (some (s, p))) :
+    ∃ f loc, Rtu.decodeRsp (pre ++ xorBytes F E ++ rest) = .ok (some (f, loc)) ∧ f.slave = s ∧
+      ((∃ e, p = .error e ∧ ExceptionResponse.decode f.pdu = .ok e) ∨
+       (∃ r, p = .ok r ∧ (ExceptionResponse.decode f.pdu).isErr = true ∧ Response.decode f.pdu = .ok r)) ∧
+      loc ≠ ⟨pre.length, F.length⟩ ∧ pre.length ≤ loc.start ∧
+      (Rtu.responsePduLen ((pre ++ xorBytes F E ++ rest).drop pre.length) = .ok (some (F.length - 3)) →
+        pre.length < loc.start) := by
+  obtain ⟨f, loc, hd, hs, hr⟩ := C08.rtu_client_decode_of_scan _ s p h
+  obtain ⟨h1, h2, h3⟩ := scan_corrupt_later_embedded Rtu.attemptRsp C08.rtu_attemptRsp_sound pre F E rest fr f loc
+    hF hlen hE hpre hd
+  refine ⟨f, loc, hd, hs, hr, ?_, h1, fun hp => h3 (rtu_rsp_corrupt_rejected_embedded pre F E rest fr hF hlen hE hp).2⟩
+  intro hl
+  rw [hl] at hd
+  exact rtu_rsp_corrupt_not_returned_embedded pre F E rest fr f hF hlen hE hd
+
+/-- without any hypothesis on `pre`: a value the ADU decoder returns never comes from the corrupted
+frame at `(pre.length, F.length)` -/
+theorem rtu_server_corrupt_loc_embedded (pre F E rest : Bytes) (fr : Rtu.Frame) (s : UInt8) (r : Request)
+    (hF : Rtu.extractFrame F (F.length - 3) = .ok (some fr)) (hlen : E.length = F.length)
+    (hE : SingleBit E ∨ Burst16 E ∨ (DoubleBit E ∧ F.length ≤ 256))
+    (h : Rtu.serverDecodeRequest (pre ++ xorBytes F E ++ rest) = .ok (some (s, r))) :
+    ∃ f loc, Rtu.decodeReq (pre ++ xorBytes F E ++ rest) = .ok (some (f, loc)) ∧ f.slave = s ∧
+      Request.decode f.pdu = .ok r ∧ loc ≠ ⟨pre.length, F.length⟩ := by
+  obtain ⟨f, loc, hd, hs, hr⟩ := C08.rtu_server_decode_of_scan _ s r h
+  refine ⟨f, loc, hd, hs, hr, ?_⟩
+  intro hl
+  rw [hl] at hd
+  exact rtu_req_corrupt_not_returned_embedded pre F E rest fr f hF hlen hE hd
+
+theorem rtu_client_corrupt_loc_embedded (pre F E rest : Bytes) (fr : Rtu.Frame) (s : UInt8) (p : ResponsePdu)
+    (hF : Rtu.extractFrame F (F.length - 3) = .ok (some fr)) (hlen : E.length = F.length)
+    (hE : SingleBit E ∨ Burst16 E ∨ (DoubleBit E ∧ F.length ≤ 256))
+    (h : Rtu.clientDecodeResponse (pre ++ xorBytes F E ++ rest) = .ok (some (s, p))) :
+    ∃ f loc, Rtu.decodeRsp (pre ++ xorBytes F E ++ rest) = .ok (some (f, loc)) ∧ f.slave = s ∧
+      loc ≠ ⟨pre.length, F.length⟩ := by
+  obtain ⟨f, loc, hd, hs, _⟩ := C08.rtu_client_decode_of_scan _ s p h
+  refine ⟨f, loc, hd, hs, ?_⟩
+  intro hl
+  rw [hl] at hd
+  exact rtu_rsp_corrupt_not_returned_embedded pre F E rest fr f hF hlen hE hd
+
 /-! ### Concrete instances (kernel-evaluated)
 
 The frame `[0x11,0x01,0x00,0x01,0x00,0x02,0xEE,0x9B]` (slave 0x11, ReadCoils(1, 2)) with transmitted
@@ -336,6 +525,35 @@ example : ∃ f loc, Rtu.decodeReq (flipped ++ good) = .ok (some (f, loc)) ∧ f
   have e : xorBytes good (bitError 8 22) = flipped := by decide +kernel
   rw [e] at h
   exact h (by decide +kernel)
+
+
+/-! embedded: three noise bytes (each offset rejected: 0x99 / 0xF0 are not function codes), the flipped
+frame, then the intact frame -/
+
+def noise3 : Bytes := [0x55, 0x99, 0xF0]
+
+example : ∀ i, i < noise3.length →
+    (Rtu.attemptReq ((noise3 ++ xorBytes good (bitError 8 22) ++ good).drop i)).isErr = true := by
+  decide +kernel
+
+example : Rtu.decodeReq (noise3 ++ flipped ++ good) = .ok (some (goodParsed, ⟨11, 8⟩)) := by decide +kernel
+example : Rtu.attemptReq ((noise3 ++ flipped ++ good).drop 3) = .err (.crc 0xEE9B 0xFB5B) := by decide +kernel
+
+/-- `rtu_server_corrupt_not_decoded_embedded` on that buffer: all hypotheses hold, and the value the
+decoder returns is the intact copy's, found at start 11 > 3 -/
+example : ∃ f loc, Rtu.decodeReq (noise3 ++ xorBytes good (bitError 8 22) ++ good) = .ok (some (f, loc)) ∧
+    f.slave = 0x11 ∧ Request.decode f.pdu = .ok (.readCoils 1 2) ∧ loc ≠ ⟨3, 8⟩ ∧ 3 < loc.start := by
+  obtain ⟨f, loc, h1, h2, h3, h4, _, h6⟩ := rtu_server_corrupt_not_decoded_embedded noise3 good (bitError 8 22) good
+    goodParsed 0x11 (.readCoils 1 2) (by decide +kernel) (by decide)
+    (Or.inl (singleBit_bitError 8 22 (by decide))) (by decide +kernel) (by decide +kernel)
+  exact ⟨f, loc, h1, h2, h3, h4, h6 (by decide +kernel)⟩
+
+/-- every single-bit flip, any prefix, any suffix -/
+example (pre rest : Bytes) : ∀ p, p < 64 → ∀ f,
+    Rtu.decodeReq (pre ++ xorBytes good (bitError 8 p) ++ rest) ≠ .ok (some (f, ⟨pre.length, 8⟩)) := by
+  intro p hp f
+  exact rtu_req_corrupt_not_returned_embedded pre good (bitError 8 p) rest goodParsed f (by decide +kernel)
+    (by simp [good]) (Or.inl (singleBit_bitError 8 p hp))
 
 /-- response direction: `[0x11,0x01,0x01,0x05,0x95,0x4B]` with bit 24 (byte 3, bit 0) flipped -/
 def goodRsp : Bytes := [0x11, 0x01, 0x01, 0x05, 0x95, 0x4B]
